@@ -56,7 +56,8 @@ class TranslateNode(Node, TranslatableTag):
     translations_var = "translations"
     message_count_var = "count"
     message_context_var = "context"
-    re_vars = re.compile(r"(?<!%)%\((\w+)\)s")
+    # Variable names can contain hyphens, which `\w` does not match.
+    re_vars = re.compile(r"(?<!%)%\(([^()]+)\)s")
 
     def __init__(
         self,
